@@ -185,6 +185,9 @@ func New(sign int8, coef uint64, exp int) Dnum {
 		if exp > expMax {
 			return Inf(sign)
 		}
+		if exp < expMin {
+			return Zero
+		}
 		return Dnum{coef, sign, int8(exp)}
 	}
 }
